@@ -46,7 +46,9 @@ def canon(line):
 
 
 def run_prog(exe, path, specs, calls, opt=2, timeout=300):
-    lines = ['I %s %d %s | %s' % (path, opt, s, ' ; '.join(calls)) for s in specs]
+    # a spec 'far!<groups>' runs with the far code allocator (harness: <opt>f)
+    lines = ['I %s %d%s %s | %s' % (path, opt, 'f' if s.startswith('far!') else '', s[4:] if s.startswith('far!') else s,
+                                   ' ; '.join(calls)) for s in specs]
     rc, out, err = vlib.run_lines(exe, lines, timeout=timeout)
     # an ERROR answer spans several lines: re-split on the leading 'I'
     joined = []
@@ -155,7 +157,15 @@ def shrink_prog(exe, text, specs2, calls, opt, site=None):
 # ---------------------------------------------------------------- run
 
 def one_program(chk, exe, rng, k, quick):
-    prog = G.gen_program(rng, feats=FEATS)
+    # Optimisation level.  What differs between the interfaces at -O2/-O3 (bb versions of optimised CFGs, thunk
+    # redirection after long generations, direct-call rewriting) is exercised on programs WITHOUT laddr/lref/jmpi:
+    # on those the optimiser is stable today (census of 60 seeds x 10 programs x {-O2,-O3} x 8-9 interface runs on
+    # HEAD 6b4b01d0: no generator death, no disagreement).  With jmpi in the program it still dies / miscompiles in
+    # ~8% + 2.5% of programs (C01 known findings jmpi-edge-split, laddr-of-label-after-ret: use-after-free of a
+    # label deleted by jump_opt, seen as get_label_disp / get_bb_version / out_insn / target_translate deaths), so
+    # programs with label addresses run at -O0/-O1 and the fixed -O2 defects are replayed from the corpus.
+    opt = rng.choice([0, 1, 1, 2, 3])
+    prog = G.gen_program(rng, feats=FEATS if opt < 2 else FEATS - {'laddr', 'lref'})
     path = write_prog(prog['text'], 'p')
     ents = prog['entries']
     ncalls = rng.randint(2, 6)
@@ -168,11 +178,6 @@ def one_program(chk, exe, rng, k, quick):
     nolref = [f for f in prog['funcs'] if not f['lref']]
     pre = ['gen %s' % rng.choice(nolref)['name']] if nolref and rng.random() < 0.3 else []
     specs = group_specs(rng, prog)
-    # random programs run at -O0/-O1: what differs between the interfaces (thunks, wrappers, shims, bb stubs,
-    # direct-call rewriting) does not depend on the optimisation level, while at -O2/-O3 the optimiser itself
-    # still miscompiles or dies on ~15% of these programs (census in design/C03.md); its fixed defects are replayed
-    # from the corpus at their own level
-    opt = rng.choice([0, 1, 1])
     orders = [pre + calls]
     if len(calls) > 1:
         c2 = list(calls)
@@ -199,6 +204,18 @@ def one_program(chk, exe, rng, k, quick):
                 continue
             res = (prog, specs, cs, opt, d, outs)
             break
+    if res is None and k % 3 == 0:
+        # configuration: a user code allocator whose regions are > 2 GiB apart (thunks take their long form, calls
+        # stay indirect); interpreter shim, eager and lazy whole-function generation must not notice
+        allm = ','.join(str(i) for i in range(prog['nmodules']))
+        fspecs = ['interp:' + allm] + ['far!%s:%s' % (i, allm) for i in ('interp', 'gen', 'lazy')]
+        outs = run_prog(exe, path, fspecs, calls, opt)
+        for s, o in zip(fspecs, outs):
+            chk.count((prog['text'], s, tuple(calls), opt), nontrivial=True)
+            chk.dist('iface_runs', s.split(':')[0])
+        d = disagree(outs)
+        if d is not None and not any(GEN_FAILED in o for o in outs):
+            res = (prog, fspecs, calls, opt, d, outs)
     for ft in prog['features']:
         chk.dist('prog_features', ft)
     chk.dist('prog_modules', prog['nmodules'])
@@ -260,6 +277,20 @@ def run(chk):
             if d is not None:
                 found += 1
                 report(chk, exe, (dict(text=j['text'], features=['corpus']), specs, j['calls'], j.get('opt', 2), d, outs))
+    # Recorded limitation (KNOWN_FINDINGS sig lazybb-far-code): lazy-BB generation needs every code region of the
+    # context within +-2 GiB (rel32 in bb thunks / bb branches: _MIR_get_bb_thunk and _MIR_replace_bb_thunk truncate
+    # silently -- coq: replace_bb_thunk_far_refuted --, setup_rel32 exits "too big offset").  Witness = a program run
+    # with the far code allocator; it is run only while the finding is listed, so that a repair is noticed.
+    far = os.path.join(vlib.VERIF, 'corpus', 'c03_far_bb.json')
+    if os.path.exists(far) and any(sig == 'lazybb-far-code' for sig, _ in chk.known):
+        j = json.load(open(far))
+        p = write_prog(j['text'], 'farbb')
+        specs = ['interp:' + j['mods'], 'far!bb:' + j['mods']]
+        outs = run_prog(exe, p, specs, j['calls'], j['opt'])
+        chk.count(('far-bb', j['text']), nontrivial=True, n=2)
+        if outs[0] != outs[1] and 'CRASH' not in outs[0]:
+            chk.finding('lazybb-far-code', dict(kind='ifaces', text=j['text'], specs=specs, calls=j['calls'], opt=j['opt'], outs=outs),
+                        'lazy-BB generation with code regions > 2 GiB apart: %s' % outs[1][-160:])
     seen_sites = set()
     for k in range(nprog):
         res, deaths = one_program(chk, exe, rng, k, quick)
